@@ -16,6 +16,13 @@ package meta
 // LoadIrreversibleBlockHeight reads after a restart: table prefix "M" + key) and
 // into the pending in-memory meta, both with the same value.
 //
+// A state machine starts with its staging copy equal to what it loaded: the irreversible
+// height and window in MetaTmp (copied into Meta after every block-level step) are the
+// persisted ones, and the height is the one the table holds.
+//@ func NewMeta
+//@   property C17
+//@   ensures staging_copy_starts_equal: result1 == nil ==> result0 != nil && result0.Meta != nil && result0.MetaTmp != nil && result0.MetaTmp.IrreversibleBlockHeight == result0.Meta.IrreversibleBlockHeight && result0.MetaTmp.IrreversibleSlideWindow == result0.Meta.IrreversibleSlideWindow
+
 //@ func Meta.UpdateIrreversibleBlockHeight
 //@   property C17
 //@   ensures tmp_updated: result == nil ==> t.MetaTmp.IrreversibleBlockHeight == nextIrreversibleBlockHeight
